@@ -257,6 +257,8 @@ type DumpOpts struct {
 	// FoldBoolConsts renders every constant boolean expression as the literal true/false of its
 	// value (the builder emits `true` for `!false`, `1 < 2`, ...).
 	FoldBoolConsts bool
+	// LabelName, if set, renames labels (generated labels have no stable names)
+	LabelName func(string) string
 }
 
 // DumpWith is Dump with relaxations.
@@ -351,6 +353,13 @@ type dumper struct {
 	c      *Checked
 	pkg    *types.Package
 	locals map[types.Object]int
+}
+
+func (d *dumper) labelName(n string) string {
+	if d.o.LabelName != nil {
+		return d.o.LabelName(n)
+	}
+	return n
 }
 
 func (d *dumper) reset() { d.locals = map[types.Object]int{} }
@@ -774,12 +783,12 @@ func (d *dumper) stmt(b *strings.Builder, s ast.Stmt, ind int) {
 	case *ast.DeferStmt:
 		line("defer %s", d.expr(x.Call))
 	case *ast.LabeledStmt:
-		line("label %s", x.Label.Name)
+		line("label %s", d.labelName(x.Label.Name))
 		d.stmt(b, x.Stmt, ind)
 	case *ast.BranchStmt:
 		l := ""
 		if x.Label != nil {
-			l = " " + x.Label.Name
+			l = " " + d.labelName(x.Label.Name)
 		}
 		line("%s%s", x.Tok, l)
 	case *ast.EmptyStmt:
